@@ -1,7 +1,436 @@
-//! (stub) driver module - see tools/HOWTO.md
-use crate::util::Args;
+//! C05 driver: binary art formats (XBin, BIN, ADF, IDF, Tundra) reproduce what was saved.
+//!
+//! `rt` events (first half): a source picture strictly inside the format's representable set, the bytes
+//! `Buffer::to_bytes(ext, lossless options)` wrote, and the picture `Buffer::from_bytes` read back.
+//! `rs` events (second half): a byte string the loader accepts (own files and mutated ones), the picture of the first
+//! load, and the picture after save -> load.
+//! A picture is projected to what the property talks about: size, per cell character (+ blink, font page), displayed
+//! foreground / background RGB (through the palette, bold folded into the bright colour), ice mode, the first 16
+//! palette colours, the glyph tables, and which glyphs are blank / solid (their fg / bg is not displayed).
+//! Everything is judged by spec/codec/Trace_BinFmt.tla.
+use crate::util::{guard, msg_class, panic_site, rng, Args, Out};
+use icy_engine::{AttributedChar, BitFont, Buffer, Color, IceMode, Palette, SaveOptions, TextAttribute, TextPane};
+use rand::rngs::StdRng;
+use rand::Rng;
+use serde_json::{json, Value};
+use std::path::Path;
 
-pub fn c05(_a: &Args) {
-    eprintln!("c05: driver not built yet");
-    std::process::exit(2);
+#[derive(Clone)]
+struct Cell { ch: u8, fg: u32, bg: u32, bl: bool, pg: u8 }
+
+struct Src {
+    fmt: &'static str,
+    w: i32,
+    h: i32,
+    mode: u8, // 0 unlimited, 1 blink, 2 ice
+    pal: Option<Vec<(u8, u8, u8)>>, // None = DOS default
+    fonts: Vec<Option<BitFont>>,    // page 0, page 1; None = engine default for page 0
+    cells: Vec<Cell>,
+    compress: bool,
+    sauce: bool,
+    class: String,
+}
+
+fn ice_of(m: u8) -> IceMode { match m { 0 => IceMode::Unlimited, 1 => IceMode::Blink, _ => IceMode::Ice } }
+
+fn build(s: &Src) -> Buffer {
+    let mut buf = Buffer::new((s.w, s.h));
+    buf.is_terminal_buffer = false;
+    buf.ice_mode = ice_of(s.mode);
+    if let Some(p) = &s.pal {
+        let cols: Vec<Color> = p.iter().map(|c| Color::new(c.0, c.1, c.2)).collect();
+        buf.palette = Palette::from_slice(&cols);
+    }
+    for (i, f) in s.fonts.iter().enumerate() {
+        if let Some(f) = f { buf.set_font(i, f.clone()); }
+    }
+    for (i, c) in s.cells.iter().enumerate() {
+        let mut at = TextAttribute::new(c.fg, c.bg);
+        at.set_is_blinking(c.bl);
+        at.set_font_page(c.pg as usize);
+        buf.layers[0].set_char((i as i32 % s.w, i as i32 / s.w), AttributedChar::new(c.ch as char, at));
+    }
+    buf
+}
+
+fn rgb24(c: (u8, u8, u8)) -> u32 { ((c.0 as u32) << 16) | ((c.1 as u32) << 8) | c.2 as u32 }
+
+/// glyph classes per font page: codes whose glyph has no pixel set (fg / blink not displayed) and all pixels set (bg not displayed)
+fn glyph_classes(buf: &Buffer) -> (Value, Value) {
+    let mut blank = vec![];
+    let mut solid = vec![];
+    for page in 0..2usize {
+        let (mut b, mut s) = (vec![], vec![]);
+        if let Some(font) = buf.get_font(page) {
+            let wmask: u8 = if font.size.width >= 8 { 0xFF } else { !(0xFFu8 >> font.size.width) };
+            for ch in 0..256u32 {
+                if let Some(g) = font.get_glyph(char::from_u32(ch).unwrap()) {
+                    if g.data.iter().all(|r| r & wmask == 0) { b.push(ch); }
+                    if !g.data.is_empty() && g.data.iter().all(|r| r & wmask == wmask) { s.push(ch); }
+                } else {
+                    b.push(ch);
+                }
+            }
+        }
+        blank.push(b);
+        solid.push(s);
+    }
+    (json!(blank), json!(solid))
+}
+
+fn fonts_of(buf: &Buffer, with_data: bool) -> Value {
+    let mut v = vec![];
+    for page in 0..2usize {
+        if let Some(f) = buf.get_font(page) {
+            let data = f.convert_to_u8_data();
+            // the glyph table as a CRC-32 (two 16-bit halves) and, for small cases, the bytes themselves
+            let crc = icy_engine::get_crc32(&data);
+            v.push(json!({"h": f.size.height, "w": f.size.width, "n": data.len(), "crc": [crc >> 16, crc & 0xFFFF], "data": if with_data { data } else { vec![] }}));
+        } else {
+            break;
+        }
+    }
+    json!(v)
+}
+
+/// projection of a buffer to the picture C05 talks about
+fn picture(buf: &Buffer, with_fonts: bool, with_classes: bool, font_data: bool, max_rows: i32) -> Value {
+    let (w, h) = (buf.get_width(), buf.get_height());
+    let rows = h.min(max_rows).max(0);
+    let n = (w.max(0) as usize) * (h.max(0) as usize);
+    let (mut ch, mut fg, mut bg) = (Vec::with_capacity(n), Vec::with_capacity(n), Vec::with_capacity(n));
+    for y in 0..rows {
+        for x in 0..w {
+            let c = buf.get_char((x, y));
+            let code = c.ch as u32;
+            let pg = c.get_font_page() as u32;
+            // 0..255 character, +256 blink, +512*page; anything else (wide char, page > 1) can never equal a source code
+            ch.push(if code > 255 || pg > 1 { 4096 + (code & 0xFFFF) } else { code + 256 * (c.attribute.is_blinking() as u32) + 512 * pg });
+            let f = c.attribute.get_foreground();
+            let f = if c.attribute.is_bold() && f < 8 { f + 8 } else { f };
+            fg.push(rgb24(buf.palette.get_rgb(f)));
+            bg.push(rgb24(buf.palette.get_rgb(c.attribute.get_background())));
+        }
+    }
+    let pal: Vec<Value> = (0..buf.palette.len().min(16)).map(|i| { let c = buf.palette.get_rgb(i as u32); json!([c.0, c.1, c.2]) }).collect();
+    let mut v = json!({"w": w, "h": h, "rows": rows, "ice": matches!(buf.ice_mode, IceMode::Ice) as u8, "ch": ch, "fg": fg, "bg": bg, "pal": pal, "npal": buf.palette.len()});
+    v["fonts"] = if with_fonts { fonts_of(buf, font_data) } else { json!([]) };
+    if with_classes {
+        let (b, s) = glyph_classes(buf);
+        v["blank"] = b;
+        v["solid"] = s;
+    }
+    v
+}
+
+fn empty_pic() -> Value { json!({"w":0,"h":0,"rows":0,"ice":0,"ch":[],"fg":[],"bg":[],"pal":[],"npal":0,"fonts":[]}) }
+
+fn status<T>(r: &Result<Result<T, String>, crate::util::PanicInfo>) -> String {
+    match r { Ok(Ok(_)) => "ok".into(), Ok(Err(e)) => format!("err:{}", msg_class(e)), Err(p) => format!("panic:{}", panic_site(p)) }
+}
+
+fn opts(compress: bool, sauce: bool) -> SaveOptions {
+    let mut o = SaveOptions::new();
+    o.lossles_output = true;
+    o.compress = compress;
+    o.save_sauce = sauce;
+    o
+}
+
+fn save(buf: &Buffer, fmt: &str, compress: bool, sauce: bool) -> Result<Result<Vec<u8>, String>, crate::util::PanicInfo> {
+    let o = opts(compress, sauce);
+    guard(|| buf.to_bytes(fmt, &o).map_err(|e| e.to_string()))
+}
+
+fn load(fmt: &str, bytes: &[u8]) -> Result<Result<Buffer, String>, crate::util::PanicInfo> {
+    let name = format!("c05.{fmt}");
+    guard(|| Buffer::from_bytes(Path::new(&name), true, bytes).map_err(|e| e.to_string()))
+}
+
+fn embeds_fonts(fmt: &str) -> bool { matches!(fmt, "xb" | "adf" | "idf") }
+
+// ------------------------------------------------------------------------------------------------ generators
+fn six(r: &mut StdRng) -> u8 { let v: u8 = r.gen_range(0..64); (v << 2) | (v >> 4) }
+
+fn pal16_sixbit(r: &mut StdRng) -> Vec<(u8, u8, u8)> { (0..16).map(|_| (six(r), six(r), six(r))).collect() }
+
+fn rnd_font(r: &mut StdRng, height: u8, name: &str) -> BitFont {
+    let mut data = vec![0u8; 256 * height as usize];
+    for b in data.iter_mut() { *b = r.gen(); }
+    for row in 0..height as usize {
+        data[32 * height as usize + row] = 0;       // space is blank
+        data[219 * height as usize + row] = 0xFF;   // full block is solid
+    }
+    BitFont::create_8(name, 8, height, &data)
+}
+
+fn pick<T: Copy>(r: &mut StdRng, xs: &[T]) -> T { xs[r.gen_range(0..xs.len())] }
+
+/// cell content: style 0 uniform random, 1 runs (each coordinate kept with high probability), 2 few distinct cells
+fn gen_cells(r: &mut StdRng, n: usize, chars: &dyn Fn(&mut StdRng) -> u8, maxfg: u32, maxbg: u32, blink: bool, pages: u8) -> Vec<Cell> {
+    let style = r.gen_range(0..3);
+    let keep = pick(r, &[0.6, 0.9, 0.97]);
+    let mut cur = Cell { ch: chars(r), fg: r.gen_range(0..maxfg), bg: r.gen_range(0..maxbg), bl: blink && r.gen_bool(0.3), pg: r.gen_range(0..pages) };
+    let few: Vec<Cell> = (0..4).map(|_| Cell { ch: chars(r), fg: r.gen_range(0..maxfg), bg: r.gen_range(0..maxbg), bl: blink && r.gen_bool(0.3), pg: r.gen_range(0..pages) }).collect();
+    let mut v = Vec::with_capacity(n);
+    for _ in 0..n {
+        match style {
+            0 => cur = Cell { ch: chars(r), fg: r.gen_range(0..maxfg), bg: r.gen_range(0..maxbg), bl: blink && r.gen_bool(0.3), pg: r.gen_range(0..pages) },
+            1 => {
+                if !r.gen_bool(keep) { cur.ch = chars(r); }
+                if !r.gen_bool(keep) { cur.fg = r.gen_range(0..maxfg); }
+                if !r.gen_bool(keep) { cur.bg = r.gen_range(0..maxbg); }
+                if blink && !r.gen_bool(keep) { cur.bl = !cur.bl; }
+                if pages > 1 && !r.gen_bool(keep) { cur.pg = r.gen_range(0..pages); }
+            }
+            _ => cur = few[r.gen_range(0..few.len())].clone(),
+        }
+        v.push(cur.clone());
+    }
+    if pages > 1 {
+        // both fonts must be in use, otherwise the picture is a one-font picture
+        v[0].pg = 0;
+        if n > 1 { v[n - 1].pg = 1; } else { for c in v.iter_mut() { c.pg = 0; } }
+    }
+    v
+}
+
+fn any_char(r: &mut StdRng) -> u8 { if r.gen_bool(0.2) { pick(r, &[0u8, 1, 2, 3, 4, 5, 6, 7, 10, 13, 26, 27, 32, 219, 255]) } else { r.gen() } }
+
+fn gen_xb(r: &mut StdRng, i: u64, thorough: bool) -> Src {
+    let ws: &[i32] = &[1, 2, 63, 64, 65, 80];
+    let hs: &[i32] = &[1, 24, 25, 26];
+    let (w, h) = match i % 12 {
+        0 => (pick(r, ws), pick(r, hs)),
+        1 => (r.gen_range(1..=100), pick(r, &[1, 2, 25])),
+        2 => (pick(r, ws), r.gen_range(1..=30)),
+        3 if i % 120 == 3 => (4096, if thorough { 25 } else { 2 }),
+        4 if i % 120 == 4 => (r.gen_range(1..=6), 200),
+        _ => (r.gen_range(1..=40), r.gen_range(1..=24)),
+    };
+    let two = r.gen_bool(0.4) && w * h >= 2;
+    let mode = if r.gen_bool(0.08) { 0 } else if r.gen_bool(0.5) { 1 } else { 2 };
+    let fh: u8 = match r.gen_range(0..6) { 0 => 1, 1 => 8, 2 => 16, 3 => 32, _ => r.gen_range(1..=32) };
+    let custom_font = two || fh != 16 || r.gen_bool(0.4);
+    let fonts = if two { vec![Some(rnd_font(r, fh, "c05 a")), Some(rnd_font(r, fh, "c05 b"))] } else if custom_font { vec![Some(rnd_font(r, fh, "c05 a"))] } else { vec![None] };
+    let pal = if r.gen_bool(0.6) { Some(pal16_sixbit(r)) } else { None };
+    let maxbg = if mode == 2 { 16 } else { 8 };
+    let cells = gen_cells(r, (w * h) as usize, &any_char, if two { 8 } else { 16 }, maxbg, mode != 2, if two { 2 } else { 1 });
+    let compress = r.gen_bool(0.5);
+    Src { fmt: "xb", w, h, mode, pal, fonts, cells, compress, sauce: r.gen_bool(0.3), class: format!("fonts={},fh={},pal={},compress={}", if two { 2 } else { 1 }, fh, 0, compress as u8) }
+}
+
+fn gen_bin(r: &mut StdRng, i: u64, _thorough: bool) -> Src {
+    let w = match i % 6 { 0 => 2, 1 => 80, 2 => 160, 3 => 510, _ => 2 * r.gen_range(1..=255) };
+    let h = match i % 7 { 0 => 1, 1 => 25, 2 => 24, 3 => 26, _ => r.gen_range(1..=(if w > 200 { 4 } else if w > 60 { 12 } else { 40 })) };
+    let mode = r.gen_range(0..3);
+    let maxbg = if mode == 2 { 16 } else { 8 };
+    let cells = gen_cells(r, (w * h) as usize, &any_char, 16, maxbg, mode != 2, 1);
+    Src { fmt: "bin", w, h, mode, pal: None, fonts: vec![None], cells, compress: false, sauce: true, class: format!("mode={mode}") }
+}
+
+fn gen_adf(r: &mut StdRng, i: u64, _thorough: bool) -> Src {
+    let h = match i % 8 { 0 => 1, 1 => 24, 2 => 25, 3 => 26, 4 if i % 40 == 4 => 201, _ => r.gen_range(1..=30) };
+    let cells = gen_cells(r, (80 * h) as usize, &any_char, 16, 16, false, 1);
+    let font = if r.gen_bool(0.5) { Some(rnd_font(r, 16, "c05 a")) } else { None };
+    Src { fmt: "adf", w: 80, h, mode: 2, pal: Some(pal16_sixbit(r)), fonts: vec![font], cells, compress: false, sauce: r.gen_bool(0.3), class: String::new() }
+}
+
+fn gen_idf(r: &mut StdRng, i: u64, _thorough: bool) -> Src {
+    let w = match i % 5 { 0 => 80, 1 => 1, 2 => 79, _ => r.gen_range(1..=80) };
+    let h = match i % 9 { 0 => 1, 1 => 24, 2 => 25, 3 => 26, 4 if i % 45 == 4 => 200, _ => r.gen_range(1..=30) };
+    let chars = |r: &mut StdRng| if r.gen_bool(0.15) { 1u8 } else { any_char(r) };
+    let mut cells = gen_cells(r, (w * h) as usize, &chars, 16, 16, false, 1);
+    // the escape word itself: character 1 in black on black
+    for c in cells.iter_mut() { if c.ch == 1 && r.gen_bool(0.4) { c.fg = 0; c.bg = 0; } }
+    let font = if r.gen_bool(0.5) { Some(rnd_font(r, 16, "c05 a")) } else { None };
+    let compress = r.gen_bool(0.6);
+    Src { fmt: "idf", w, h, mode: 2, pal: Some(pal16_sixbit(r)), fonts: vec![font], cells, compress, sauce: r.gen_bool(0.2), class: format!("compress={}", compress as u8) }
+}
+
+fn gen_tnd(r: &mut StdRng, i: u64, _thorough: bool) -> Src {
+    let w = match i % 6 { 0 => 80, 1 => 1, 2 => 132, 3 => 300, _ => r.gen_range(1..=100) };
+    let h = match i % 5 { 0 => 1, 1 => 25, _ => r.gen_range(1..=(if w > 100 { 6 } else { 30 })) };
+    let ncol = pick(r, &[2usize, 16, 40, 300]);
+    let pal: Vec<(u8, u8, u8)> = (0..ncol).map(|k| if k == 0 && r.gen_bool(0.7) { (0, 0, 0) } else { (r.gen(), r.gen(), r.gen()) }).collect();
+    let chars = |r: &mut StdRng| if r.gen_bool(0.15) { r.gen_range(0..=7u8) } else { r.gen() };
+    let mut cells = gen_cells(r, (w * h) as usize, &chars, ncol as u32, ncol as u32, false, 1);
+    if i % 4 == 3 {
+        // directed: the picture starts with cells in palette colour 0 (no colour record precedes them in the file)
+        let k = r.gen_range(1..=3).min(cells.len());
+        for (j, c) in cells.iter_mut().take(k).enumerate() { c.fg = 0; if j % 2 == 0 { c.bg = 0; } c.ch = b'A' + j as u8; }
+    }
+    Src { fmt: "tnd", w, h, mode: 2, pal: Some(pal), fonts: vec![None], cells, compress: false, sauce: true, class: format!("ncol={ncol}") }
+}
+
+/// one source picture for a configuration exported by TLC (Gen_BinFmt): the blocks / mode bits / sizes are given, the content is seeded
+fn from_config(r: &mut StdRng, v: &Value) -> Option<Src> {
+    let c = &v["cfg"];
+    let n = |k: &str| c[k].as_i64().unwrap_or(0);
+    Some(match v["fmt"].as_str()? {
+        "xb" => {
+            let (w, h) = (c["size"][0].as_i64()? as i32, c["size"][1].as_i64()? as i32);
+            let two = n("two") == 1;
+            let fh = n("fh") as u8;
+            let mode = if n("ice") == 1 { 2 } else { 1 };
+            let fonts = if two { vec![Some(rnd_font(r, fh, "c05 a")), Some(rnd_font(r, fh, "c05 b"))] } else if n("font") == 1 { vec![Some(rnd_font(r, fh, "c05 a"))] } else { vec![None] };
+            let pal = if n("pal") == 1 { Some(pal16_sixbit(r)) } else { None };
+            let cells = gen_cells(r, (w * h) as usize, &any_char, if two { 8 } else { 16 }, if mode == 2 { 16 } else { 8 }, mode != 2, if two { 2 } else { 1 });
+            Src { fmt: "xb", w, h, mode, pal, fonts, cells, compress: n("compress") == 1, sauce: false, class: format!("cfg:{c}") }
+        }
+        "bin" => {
+            let (w, h, mode) = (n("w") as i32, n("h") as i32, n("mode") as u8);
+            let cells = gen_cells(r, (w * h) as usize, &any_char, 16, if mode == 2 { 16 } else { 8 }, mode != 2, 1);
+            Src { fmt: "bin", w, h, mode, pal: None, fonts: vec![None], cells, compress: false, sauce: true, class: format!("cfg:{c}") }
+        }
+        "adf" => {
+            let h = n("h") as i32;
+            let cells = gen_cells(r, (80 * h) as usize, &any_char, 16, 16, false, 1);
+            Src { fmt: "adf", w: 80, h, mode: 2, pal: Some(pal16_sixbit(r)), fonts: vec![Some(rnd_font(r, 16, "c05 a"))], cells, compress: false, sauce: n("sauce") == 1, class: format!("cfg:{c}") }
+        }
+        "idf" => {
+            let (w, h) = (n("w") as i32, n("h") as i32);
+            let chars = |r: &mut StdRng| if r.gen_bool(0.1) { 1u8 } else { any_char(r) };
+            let cells = gen_cells(r, (w * h) as usize, &chars, 16, 16, false, 1);
+            Src { fmt: "idf", w, h, mode: 2, pal: Some(pal16_sixbit(r)), fonts: vec![Some(rnd_font(r, 16, "c05 a"))], cells, compress: n("compress") == 1, sauce: false, class: format!("cfg:{c}") }
+        }
+        "tnd" => {
+            let (w, h, ncol) = (n("w") as i32, n("h") as i32, n("ncol") as usize);
+            let pal: Vec<(u8, u8, u8)> = (0..ncol).map(|k| if k == 0 { (0, 0, 0) } else { (r.gen(), r.gen(), r.gen()) }).collect();
+            let chars = |r: &mut StdRng| if r.gen_bool(0.1) { r.gen_range(0..=7u8) } else { r.gen() };
+            let cells = gen_cells(r, (w * h) as usize, &chars, ncol as u32, ncol as u32, false, 1);
+            Src { fmt: "tnd", w, h, mode: 2, pal: Some(pal), fonts: vec![None], cells, compress: false, sauce: true, class: format!("cfg:{c}") }
+        }
+        _ => return None,
+    })
+}
+
+// ------------------------------------------------------------------------------------------------ events
+struct Ctx { out: Vec<Out>, bytes: Vec<usize>, id: u64, counts: std::collections::BTreeMap<String, u64>, files: Vec<(&'static str, Vec<u8>, bool)> }
+
+impl Ctx {
+    fn emit(&mut self, ev: &Value, size: usize) {
+        let i = (0..self.out.len()).min_by_key(|&i| self.bytes[i]).unwrap();
+        self.bytes[i] += size + 500;
+        self.out[i].ev(ev);
+    }
+    fn count(&mut self, k: String) { *self.counts.entry(k).or_insert(0) += 1; }
+}
+
+/// first half: source -> bytes -> reloaded
+fn round_trip(ctx: &mut Ctx, s: &Src, ml_limit: usize, index: u64) {
+    let buf = build(s);
+    let ncell = (s.w * s.h) as usize;
+    let ml = ncell <= ml_limit;
+    let src = picture(&buf, embeds_fonts(s.fmt), true, ml, i32::MAX);
+    let saved = save(&buf, s.fmt, s.compress, s.sauce);
+    let st_save = status(&saved);
+    let (mut st_load, mut back) = ("nofile".to_string(), empty_pic());
+    let mut nbytes = 0;
+    let mut bytes_v = json!([]);
+    if let Ok(Ok(bytes)) = &saved {
+        nbytes = bytes.len();
+        if ml { bytes_v = json!(bytes); }
+        let l = load(s.fmt, bytes);
+        st_load = status(&l);
+        if let Ok(Ok(b)) = &l { back = picture(b, embeds_fonts(s.fmt), false, ml, s.h + 2); }
+        ctx.files.push((s.fmt, bytes.clone(), s.compress));
+    }
+    ctx.id += 1;
+    let ev = json!({"ev":"rt","id":ctx.id,"index":index,"fmt":s.fmt,"class":s.class,"compress":s.compress as u8,"sauce":s.sauce as u8,"mode":s.mode,"nfonts":s.fonts.len(),
+                    "ml":ml as u8,"src":src,"save":st_save,"nbytes":nbytes,"bytes":bytes_v,"load":st_load,"back":back});
+    ctx.emit(&ev, ncell * 60 + nbytes * 4);
+    ctx.count(format!("rt:{}", s.fmt));
+}
+
+/// second half: bytes accepted by the loader -> picture 1 -> save -> load -> picture 2
+fn resave(ctx: &mut Ctx, fmt: &'static str, bytes: &[u8], origin: &str, compress: bool, cell_limit: usize) {
+    let l1 = load(fmt, bytes);
+    let Ok(Ok(b1)) = &l1 else { ctx.count(format!("rs-rejected:{fmt}:{}", origin.split(':').next().unwrap_or(""))); return; };
+    if (b1.get_width().max(0) as usize) * (b1.get_height().max(0) as usize) > cell_limit { ctx.count(format!("rs-skipped-large:{fmt}")); return; }
+    let p1 = picture(b1, embeds_fonts(fmt), true, false, i32::MAX);
+    let sauce = matches!(fmt, "bin" | "tnd") || b1.has_sauce();
+    let saved = save(b1, fmt, compress, sauce);
+    let st_save = status(&saved);
+    let (mut st_l2, mut p2) = ("nofile".to_string(), empty_pic());
+    if let Ok(Ok(bytes2)) = &saved {
+        let l2 = load(fmt, bytes2);
+        st_l2 = status(&l2);
+        if let Ok(Ok(b2)) = &l2 { p2 = picture(b2, embeds_fonts(fmt), false, false, b1.get_height() + 2); }
+    }
+    ctx.id += 1;
+    let ncell = (b1.get_width().max(0) as usize) * (b1.get_height().max(0) as usize);
+    let ev = json!({"ev":"rs","id":ctx.id,"fmt":fmt,"origin":origin,"compress":compress as u8,"sauce":sauce as u8,"nbytes":bytes.len(),"p1":p1,"save":st_save,"l2":st_l2,"p2":p2});
+    ctx.emit(&ev, ncell * 60);
+    ctx.count(format!("rs:{fmt}:{}", origin.split(':').next().unwrap_or("")));
+}
+
+fn mutate(r: &mut StdRng, fmt: &str, bytes: &[u8]) -> (String, Vec<u8>) {
+    let mut b = bytes.to_vec();
+    let n = b.len();
+    let hdr = match fmt { "xb" => 11, "idf" => 12, "tnd" => 9, "adf" => 1, _ => 0 };
+    match r.gen_range(0..6) {
+        0 if n > hdr + 2 => { let k = r.gen_range(hdr..n); b.truncate(k); ("trunc".into(), b) }
+        1 if n > hdr + 1 => { for _ in 0..r.gen_range(1..=4) { let k = r.gen_range(hdr..n); b[k] = r.gen(); } ("body-bytes".into(), b) }
+        2 if hdr > 0 => { let k = r.gen_range(0..hdr.min(n)); b[k] = if r.gen_bool(0.5) { r.gen() } else { b[k].wrapping_add(1) }; ("header-byte".into(), b) }
+        3 => { for _ in 0..r.gen_range(1..=7) { b.push(r.gen()); } ("append".into(), b) }
+        4 if n > hdr + 4 => { let k = r.gen_range(hdr..n - 1); let m = r.gen_range(1..=(n - k).min(40)); b.drain(k..k + m); ("delete".into(), b) }
+        _ if n > hdr + 1 => { let k = r.gen_range(hdr..n); b[k] ^= 1 << r.gen_range(0..8); ("bitflip".into(), b) }
+        _ => ("same".into(), b),
+    }
+}
+
+pub fn c05(a: &Args) {
+    let prefix = a.str("out", "work/C05/trace");
+    let shards = a.usize("shards", 4).max(1);
+    let seed = a.u64("seed", 0);
+    let thorough = a.str("tier", "quick") == "thorough";
+    let scale = a.u64("scale", if thorough { 8 } else { 1 });
+    let ml_limit = a.usize("ml-cells", 2600);
+    let mut ctx = Ctx { out: (0..shards).map(|i| Out::create(&format!("{prefix}-{i}.ndjson"))).collect(), bytes: vec![0; shards], id: 0, counts: Default::default(), files: vec![] };
+    let only = a.str("only", "");
+    let index = a.m.get("index").and_then(|v| v.parse::<u64>().ok());
+    // (1) one picture per configuration exported by TLC (Gen_BinFmt -> gen/binfmt.ndjson); index = 1_000_000 + line number
+    let gen = a.str("gen", "gen/binfmt.ndjson");
+    let text = std::fs::read_to_string(&gen).unwrap_or_else(|e| { eprintln!("c05: cannot read {gen}: {e}"); std::process::exit(2) });
+    for (k, line) in text.lines().enumerate() {
+        let Ok(v) = serde_json::from_str::<Value>(line) else { continue };
+        let i = 1_000_000 + k as u64;
+        if !only.is_empty() && v["fmt"].as_str() != Some(only.as_str()) { continue; }
+        if let Some(ix) = index { if ix != i { continue; } }
+        let mut r = rng(seed, 9_000_000 + k as u64);
+        if let Some(s) = from_config(&mut r, &v) {
+            round_trip(&mut ctx, &s, ml_limit, i);
+            ctx.count("rt-from-tlc-config".to_string());
+        }
+    }
+    // (2) seeded random pictures
+    let gens: [(&'static str, fn(&mut StdRng, u64, bool) -> Src, u64, u64); 5] =
+        [("xb", gen_xb, 360, 1), ("bin", gen_bin, 150, 2), ("adf", gen_adf, 80, 3), ("idf", gen_idf, 150, 4), ("tnd", gen_tnd, 150, 5)];
+    for (fmt, g, n, stream) in gens {
+        if !only.is_empty() && only != fmt { continue; }
+        for i in 0..n * scale {
+            if let Some(ix) = index { if ix != i { continue; } }
+            let mut r = rng(seed, stream * 1_000_000 + i);
+            let s = g(&mut r, i, thorough);
+            round_trip(&mut ctx, &s, ml_limit, i);
+        }
+    }
+    // second half: own files and mutated ones that still load
+    let files = if a.has("no-resave") { vec![] } else { std::mem::take(&mut ctx.files) };
+    let mut r = rng(seed, 77_000_000);
+    for (k, (fmt, bytes, compress)) in files.iter().enumerate() {
+        if bytes.len() > 60_000 { continue; }
+        if k % 3 == 0 { resave(&mut ctx, fmt, bytes, "own", *compress, 4_000); }
+        let (kind, m) = mutate(&mut r, fmt, bytes);
+        let c = r.gen_bool(0.5);
+        // the projection of a buffer loaded from a mutated file is the harness's own code: a panic there is a tool error, say where
+        if let Err(p) = guard(|| resave(&mut ctx, fmt, &m, &format!("mut:{kind}"), c, 4_000)) {
+            eprintln!("c05: harness panic while projecting a mutated {fmt} file ({kind}): {} at {}:{}", p.msg, p.file, p.line);
+            std::process::exit(2);
+        }
+    }
+    for o in ctx.out.iter_mut() { o.flush(); }
+    std::fs::write(format!("{prefix}-summary.json"), serde_json::to_string(&json!({"events": ctx.id, "counts": ctx.counts})).unwrap()).unwrap();
+    eprintln!("c05: {} events {:?}", ctx.id, ctx.counts);
 }
